@@ -7,4 +7,5 @@ def main : IO UInt32 :=
     match family with
     | "c01" => C01.check params lines
     | "c01d" => C01.check params lines
+    | "c01re" => C01.check params lines
     | _ => { bad := [s!"unknown family {family}"] })
